@@ -16,6 +16,12 @@ MCAlphabet2 == {97, 37, 100, 115, 49, 48}
 MCAlphabet2Quick == {97, 37, 100, 49}
 MCScanVals == {I("int", TRUE, N(5)), S("string", <<120, 121>>), Bv(TRUE)}
 
+\* directive tokens for the "adj" family: %d %4d %2x %12o %s %3s %t %5t %%
+Tk(fb, ar) == [f |-> fb, a |-> ar]
+MCAdjTokens == {Tk(<<37, 100>>, <<I("int", TRUE, N(5))>>), Tk(<<37, 52, 100>>, <<I("int8", FALSE, N(7))>>),
+                Tk(<<37, 50, 120>>, <<I("uint16", FALSE, N(300))>>), Tk(<<37, 49, 50, 111>>, <<I("uint", FALSE, N(9))>>),
+                Tk(<<37, 115>>, <<S("string", <<120, 121>>)>>), Tk(<<37, 51, 115>>, <<S("bytes", <<122>>)>>),
+                Tk(<<37, 116>>, <<Bv(TRUE)>>), Tk(<<37, 53, 116>>, <<Bv(FALSE)>>), Tk(<<37, 37>>, <<>>)}
 M63 == <<32768, 0, 0, 0>>
 Max63 == <<32767, 65535, 65535, 65535>>
 Max64 == <<65535, 65535, 65535, 65535>>
